@@ -402,8 +402,23 @@ class History(Driver):
                 if match is None:
                     raise Mismatch('state:next_packet:unknown-packet', 'iterator delivered a packet the model does not hold (or twice): %s' % D._short(got))
                 remaining.remove(match)
-                act = rng.choice(['keep', 'keep', 'update', 'remove'])
-                if act == 'remove':
+                act = rng.choice(['keep', 'keep', 'update', 'remove', 'update-foreign'])
+                if act == 'update-foreign':
+                    # an item of the loop first, then one that is not the loop's: refused as a whole, nothing written
+                    others = [nn for l2 in cont.loops if l2 is not ml for nn in l2.norms()]
+                    foreign = rng.choice(others) if others and rng.random() < 0.7 else '_zz_not_in_any_loop'
+                    own = rng.sample(norms, rng.randint(1, min(2, len(norms))))
+                    r3, upk = L.packet_create(own + [foreign])
+                    for n in own + [foreign]:
+                        v = self.mk(self.rand_value())
+                        L.packet_set(upk, n, v)
+                        L.value_free(v)
+                    r3 = L.it_update(it, upk)
+                    L.packet_free(upk)
+                    self.expect('cif_pktitr_update_packet(foreign item)', r3, {CIF_WRONG_LOOP})
+                    self.ctx.count('iterator_updates_refused')
+                    result.append(match)
+                elif act == 'remove':
                     r3 = L.it_remove(it)
                     self.expect('cif_pktitr_remove_packet', r3, {CIF_OK})
                 elif act == 'update':
